@@ -349,21 +349,28 @@ Section Reals.
   Qed.
 
   (* the sign rule: after scaling, the mean entry is non-negative *)
+  Lemma sign_aux (S n s : R) : 0 < s ->
+    0 <= (S * ((if Rleb 0 (S / n) then 1 else - (1)) / s)) / n.
+  Proof.
+    intros Hs. pose proof (Rinv_0_lt_compat _ Hs) as Hi.
+    destruct (Rleb 0 (S / n)) eqn:E.
+    - apply Rleb_true in E.
+      replace (S * (1 / s) / n) with ((S / n) * / s) by (unfold Rdiv; ring).
+      apply Rmult_le_pos; [exact E | lra].
+    - assert (E' : ~ 0 <= S / n) by (intros X; apply Rleb_true in X; congruence).
+      replace (S * (- (1) / s) / n) with ((- (S / n)) * / s) by (unfold Rdiv; ring).
+      apply Rmult_le_pos; lra.
+  Qed.
+
+  (* the sign rule: after scaling, the mean entry is non-negative *)
   Lemma sign_vector (B : option matR) (q : list R) :
     0 < bform B q -> 0 <= navg (vscaler (norm_factor opsR B q) q).
   Proof.
-    intros Hv. rewrite (navg_vscaler num_ring_R). unfold norm_factor. cbn [ksqrt kre_nonneg opsR].
+    intros Hv. rewrite (navg_vscaler num_ring_R).
     pose proof (sqrt_lt_R0 _ Hv) as Hs.
-    set (s := sqrt (bform B q)) in *. unfold navg. cbn [ndiv nmul nsum NumR nofZ none_ nopp].
-    set (n := IZR (Z.of_nat (length q))).
-    set (S := @nsum R NumR q).
-    destruct (Rleb 0 (@ndiv R NumR S n)) eqn:E.
-    - apply Rleb_true in E. cbn [ndiv NumR] in E.
-      replace (S * (1 / s) / n) with ((S / n) * / s) by (field; lra).
-      apply Rmult_le_pos; [exact E | left; apply Rinv_0_lt_compat; exact Hs].
-    - assert (E' : ~ 0 <= S / n) by (intros X; apply Rleb_true in X; cbn [ndiv NumR] in E; congruence).
-      replace (S * (- (1) / s) / n) with ((- (S / n)) * / s) by (field; lra).
-      apply Rmult_le_pos; [lra | left; apply Rinv_0_lt_compat; exact Hs].
+    pose proof (sign_aux (nsum q) (IZR (Z.of_nat (length q))) (sqrt (bform B q)) Hs) as Hx.
+    unfold norm_factor, navg. cbn [ksqrt kre_nonneg opsR ndiv nmul NumR nofZ none_ nopp].
+    destruct (Rleb 0 (nsum q / IZR (Z.of_nat (length q)))); exact Hx.
   Qed.
 
   Theorem postprocess_sign sf (B : option matR) W (Qm : matR) W' Q' :
@@ -453,7 +460,7 @@ Section Machine.
 
   Lemma step_keeps_flag st o h : sHerm st = Some h -> sHerm (fst (step ops auto_solver st o)) = Some h.
   Proof.
-    intros Hh. destruct o as [p|s]; cbn [step]; [|reflexivity].
+    intros Hh. destruct o as [p|s]; cbn [step]; [|cbn; exact Hh].
     destruct (response ops auto_solver st p) as [st' c] eqn:E. cbn [fst].
     unfold response in E. rewrite Hh in E.
     destruct (pAsp p && match pB p with Some _ => pBsp p | None => true end).
@@ -581,7 +588,7 @@ Section Examples.
     split.
     - repeat constructor.
     - intros i Hi. cbn in Hi. unfold eigpair, exA, exW, exQ.
-      destruct i as [|[|i]]; [| |lia]; cbn; repeat f_equal; ring.
+      destruct i as [|[|i]]; [| |lia]; cbn; (f_equal; [ring | f_equal; ring]).
   Qed.
 
   Lemma ex_positive : forall i, (i < length exW)%nat -> 0 < bform None (getcol i exQ).
